@@ -107,7 +107,7 @@ class OSXSession:
         return [i for i in range(self.sim.n) if self.sim.learning[i] and self.sim.ids[i] in da]
 
     def running(self):
-        return not self.env._should_reset      # harness-side peek, only used to steer the generator
+        return not getattr(self.env, "_should_reset", False)      # harness-side peek, only used to steer the generator
 
     def call(self, c):
         assert not self.dead
